@@ -1,0 +1,92 @@
+//! Verification hooks: compiled only with `--cfg rivia_verif`.
+//!
+//! Read-only access for an external verification harness to crate-private functions and state.
+//! Nothing here is used by the crate itself.
+use std::path::PathBuf;
+
+use crate::{
+    errors::*,
+    sys::{Entries, Memfs, MemfsGuard, VfsEntry},
+};
+
+/// The crate-private symbolic/octal mode computation used by chmod
+pub fn sym_mode(entry: &VfsEntry, octal: u32, sym: &str) -> RvResult<u32> {
+    super::chmod::mode(entry, octal, sym)
+}
+
+/// The crate-private check for a mode change revoking directory read/execute permissions
+pub fn revoking_mode(old: u32, new: u32) -> bool {
+    super::chmod::revoking_mode(old, new)
+}
+
+/// Override the internal descriptor cap of a traversal
+pub fn set_max_descriptors(mut entries: Entries, max: u16) -> Entries {
+    entries.max_descriptors = max;
+    entries
+}
+
+/// One entry of the in-memory filesystem, exactly as stored
+#[derive(Debug, Clone, PartialEq, Eq, PartialOrd, Ord)]
+pub struct EntrySnapshot {
+    pub key: PathBuf,
+    pub path: PathBuf,
+    pub alt: PathBuf,
+    pub rel: PathBuf,
+    pub dir: bool,
+    pub file: bool,
+    pub link: bool,
+    pub mode: u32,
+    pub uid: u32,
+    pub gid: u32,
+    pub follow: bool,
+    pub files: Option<Vec<String>>,
+}
+
+/// The complete state of the in-memory filesystem, sorted by key
+#[derive(Debug, Clone, PartialEq, Eq)]
+pub struct MemfsSnapshot {
+    pub cwd: PathBuf,
+    pub root: PathBuf,
+    pub entries: Vec<EntrySnapshot>,
+    pub files: Vec<(PathBuf, Vec<u8>)>,
+}
+
+/// Take a snapshot of all three indexes under one read guard
+pub fn memfs_snapshot(vfs: &Memfs) -> MemfsSnapshot {
+    let guard = vfs.read_guard();
+    let inner = match &guard {
+        MemfsGuard::Read(x) => &**x,
+        MemfsGuard::Write(x) => &**x,
+    };
+    let mut entries: Vec<EntrySnapshot> = inner
+        .entries
+        .iter()
+        .map(|(k, e)| EntrySnapshot {
+            key: k.clone(),
+            path: e.path.clone(),
+            alt: e.alt.clone(),
+            rel: e.rel.clone(),
+            dir: e.dir,
+            file: e.file,
+            link: e.link,
+            mode: e.mode,
+            uid: e.uid,
+            gid: e.gid,
+            follow: e.follow,
+            files: e.files.as_ref().map(|s| {
+                let mut v: Vec<String> = s.iter().cloned().collect();
+                v.sort();
+                v
+            }),
+        })
+        .collect();
+    entries.sort();
+    let mut files: Vec<(PathBuf, Vec<u8>)> = inner.files.iter().map(|(k, f)| (k.clone(), f.data.clone())).collect();
+    files.sort();
+    MemfsSnapshot {
+        cwd: inner.cwd.clone(),
+        root: inner.root.clone(),
+        entries,
+        files,
+    }
+}
